@@ -9,7 +9,9 @@
    code as found. *)
 From Verif Require Import Base.GoSem Css.Token Css.Tok Css.Parse
   Css.TokProofs Css.SpecProofs Css.BlocksProofs Css.ParseProofs Css.DeclSpec Css.DeclProofs
-  Css.NthSpec Css.NthProofs Css.PosProofs Css.ContentsSpec Css.ContentsProofs.
+  Css.NthSpec Css.NthProofs Css.PosProofs Css.ContentsSpec Css.ContentsProofs
+  Css.Color Css.ColorSpec Css.ColorProofs.
+From Coq Require Import QArith.
 From Verif Require Css.Syntax3Spec.
 From Coq Require Import List NArith ZArith.
 Import ListNotations.
@@ -320,6 +322,96 @@ Print Assumptions C06_positions_initial.
 Theorem C06_first_token_position : forall src p st1, update_line (init_state src) = (p, st1) -> p = mkPos 1 1.
 Proof. exact first_token_position. Qed.
 Print Assumptions C06_first_token_position.
+
+(* ------------------------------------------------------------------ colours (colors.go, ParseColorString) *)
+(* Model Css/Color.v, run here with exact rational arithmetic (`exactA`; the correspondence runs the same
+   model with float32 / float64 rounding and compares the components bit for bit).  Specification
+   Css/ColorSpec.v: CSS Color 3 section 4 on one component value: keywords (table from the upstream
+   test-suite), #rgb / #rrggbb, rgb() / rgba() with <integer>#{3} | <percentage>#{3}, hsl() / hsla() with
+   the ABC algorithm, <alphavalue> clipped; arguments = exactly one token each, comma separated. *)
+Theorem C06_color_spec : forall t, parse_color exactA t = spec_color t.
+Proof. exact parse_color_spec. Qed.
+Print Assumptions C06_color_spec.
+
+(* text level: ParseColorString never panics and returns the CSS Color 3 value of the single significant
+   component value of the text (invalid when there is none or more than one) *)
+Theorem C06_color_string_spec : forall s,
+  exists ts, Tok.tokenize true true s = Ok ts /\ parse_color_string exactA true s = Ok (spec_color_value ts).
+Proof. exact parse_color_string_spec. Qed.
+Print Assumptions C06_color_string_spec.
+
+Theorem C06_color_total : forall A s, exists c, parse_color_string A true s = Ok c.
+Proof. exact parse_color_string_total. Qed.
+Print Assumptions C06_color_total.
+
+(* per notation *)
+Theorem C06_color_hex_spec : forall v, hash_color exactA v = spec_hex v.
+Proof. exact hash_color_spec. Qed.
+Print Assumptions C06_color_hex_spec.
+
+(* the keyword tables of colors.go = the table of CSS Color 3 (for EVERY identifier, not only the listed ones) *)
+Theorem C06_color_keywords_spec : forall lower, keyword_color exactA lower = spec_keyword lower.
+Proof. exact keyword_color_spec. Qed.
+Print Assumptions C06_color_keywords_spec.
+
+(* hslToRgb = the ABC algorithm of 4.2.4 on (frac(h/360), clip s, clip l) ... *)
+Theorem C06_color_hsl_spec : forall h s l,
+  hsl_to_rgb exactA h s l = spec_hsl_to_rgb (Qfrac (inject_Z h / 360)) (clip01 (s / 100)) (clip01 (l / 100)).
+Proof. exact hsl_to_rgb_exact. Qed.
+Print Assumptions C06_color_hsl_spec.
+(* ... where frac(h/360) is the hue angle reduced modulo 360 degrees, in [0, 1) *)
+Theorem C06_color_hue_normalised : forall h,
+  (Qfrac (inject_Z h / 360) == inject_Z (h mod 360) / 360)%Q /\ (0 <= Qfrac (inject_Z h / 360) < 1)%Q.
+Proof. exact (fun h => conj (hue_mod h) (Qfrac_range _)). Qed.
+Print Assumptions C06_color_hue_normalised.
+
+(* ARGUMENT TYPING.  <integer> is the type flag of the <number-token> (set by the tokenizer from the
+   representation: C06_blocks_spec), never a property of the value: a number token whose flag is "number"
+   -- 255.0, 1e2, 120.0 -- among the arguments of rgb() / hsl(), or among the three colour arguments of
+   rgba() / hsla(), makes the colour invalid.  Holds for both arithmetic instances (accept / reject does
+   not depend on rounding: C06_color_accept_independent_of_rounding). *)
+Theorem C06_color_rgb_hsl_typing : forall A p name args x,
+  ascii_lower name = s_rgb \/ ascii_lower name = s_hsl ->
+  In x (significant args) -> non_integer_number x ->
+  parse_color A (TFunction p name args) = ColorInvalid.
+Proof. exact rgb_hsl_reject_non_integer. Qed.
+Print Assumptions C06_color_rgb_hsl_typing.
+
+Theorem C06_color_rgba_hsla_typing : forall A p name args a c1 b c2 c c3 d x,
+  ascii_lower name = s_rgba \/ ascii_lower name = s_hsla ->
+  significant args = [a; c1; b; c2; c; c3; d] ->
+  In x [a; b; c] -> non_integer_number x ->
+  parse_color A (TFunction p name args) = ColorInvalid.
+Proof. exact rgba_hsla_reject_non_integer. Qed.
+Print Assumptions C06_color_rgba_hsla_typing.
+
+(* what rgb() accepts: exactly three comma-separated arguments, all <integer> or all <percentage> *)
+Theorem C06_color_rgb_accepts : forall A p name args r g b al,
+  ascii_lower name = s_rgb ->
+  parse_color A (TFunction p name args) = ColorRGBA r g b al ->
+  exists x c1 y c2 z, significant args = [x; c1; y; c2; z] /\ comma c1 = true /\ comma c2 = true /\
+    ((exists rx ry rz, arg_type_of x = AInteger rx /\ arg_type_of y = AInteger ry /\ arg_type_of z = AInteger rz) \/
+     (exists rx ry rz, arg_type_of x = APercentage rx /\ arg_type_of y = APercentage ry /\ arg_type_of z = APercentage rz)).
+Proof. exact rgb_accepts. Qed.
+Print Assumptions C06_color_rgb_accepts.
+
+Theorem C06_color_accept_independent_of_rounding : forall A B t,
+  color_kind (parse_color A t) = color_kind (parse_color B t).
+Proof. exact parse_color_kind. Qed.
+Print Assumptions C06_color_accept_independent_of_rounding.
+
+(* an integer spelling (strconv.ParseInt succeeds = the flag the tokenizer sets) denotes an integer: the
+   truncation `int_val` used by the specification of the hue is the identity on it *)
+Theorem C06_color_integer_value : forall repr, repr_is_int repr = true -> inject_Z (int_val repr) = val repr.
+Proof. exact int_val_exact. Qed.
+Print Assumptions C06_color_integer_value.
+
+(* whole pipeline on texts: "rgb(0, 51, 255.0)", "rgb(1e2, 0, 0)", "hsl(120.0, 100%, 50%)" are invalid *)
+Example C06_color_number_is_not_integer :
+  parse_color_string exactA true [114;103;98;40;48;44;32;53;49;44;32;50;53;53;46;48;41]%N = Ok ColorInvalid /\
+  parse_color_string exactA true [114;103;98;40;49;101;50;44;32;48;44;32;48;41]%N = Ok ColorInvalid /\
+  parse_color_string exactA true [104;115;108;40;49;50;48;46;48;44;32;49;48;48;37;44;32;53;48;37;41]%N = Ok ColorInvalid.
+Proof. exact ex_rgb_number_rejected. Qed.
 
 (* hypotheses are inhabited *)
 Example C06_scalars_inhabited : scalars [97; 233; 8364; 128512]%N.
